@@ -25,6 +25,13 @@ func leafForms() []int {
 	if rtParam("LEAVES") == 3 {
 		return []int{lfEqStr}
 	}
+	if rtParam("LEAVES") == 4 { // the full alphabet plus the forms the JSON clauses name
+		all := make([]int, 0, lfCount+4)
+		for i := 0; i < lfCount; i++ {
+			all = append(all, i)
+		}
+		return append(all, lfEmptyQuoted, lfNonASCII, lfEqSpecial, lfListInt)
+	}
 	if rtParam("LEAVES") == 2 {
 		return []int{lfBare, lfEqStr, lfEqInt, lfGt, lfRangeIncl, lfList, lfWild, lfBareInt}
 	}
